@@ -69,6 +69,7 @@ MIRRORS = {
         ("builder_rules", "c05_r4_override", ("quick",), ALL, "each pair filter receives the configured mode (forced 'both' for one-sided untrimmed filters)"),
     ],
     "C12": [
+        ("c19", "_r3_input", ("C12.X",), ALL, "every reader is told the format detected from the file's content: a corrupted record cannot be re-interpreted as another format by a worker"),
         ("c14", "r1_r2_header", (), _has("unrolled loop", "tail loop", "validity"), "an invalid quality character is rejected at every position"),
     ],
     "C15": [
@@ -92,6 +93,30 @@ MIRRORS = {
         ("c06", "r4_merges", (), _has("Statistics", "EndStatistics", "AdapterStatistics"), "per-adapter statistics of the workers are merged additively"),
     ],
 }
+
+
+def _extend(prop, entries):
+    MIRRORS.setdefault(prop, []).extend(entries)
+
+
+_extend("C03", [("c08", "r1_coordinates", (), ALL, "matches built by the adapter index carry in-read coordinates of the looked-up length (mask/crop/trim slice by them)")])
+_extend("C04", [("c13", "r3_scans", (), ALL, "the quality-trimming interval is normalised, so the reported number of removed bases cannot exceed the read"),
+                ("c13", "r1_reported", (), ALL, "quality-trimmed base counts are what was removed")])
+_extend("C05", [("c15", "r3_mode", (), ALL, "{name} templates must agree between -o and -p, otherwise R1 is split and R2 is not")])
+_extend("C09", [("c03", "r4_intervals", (), _has("RemoveBeforeMatch", "RemoveAfterMatch"), "the 3' part of a linked adapter is searched in exactly what the 5' match leaves (trim_slice = remainder)")])
+_extend("C10", [("c16", "single", (), ALL, "the reverse-complement candidate is built from the read handed in by the previous modifier"),
+                ("c16", "paired", (), ALL, "paired: the swapped candidate is built from the reads handed in")])
+_extend("C11", [("builder_rules", "c05_r5_lengths", ("quick",), ALL, "a one-sided LEN:LEN2 bound gives a predicate for that mate only")])
+_extend("C13", [("c20", "r3_collect", (), _has("accumulated"), "the reported number of quality-trimmed bases adds up all quality trimmers"),
+                ("builder_rules", "c10", ("quick",), lambda o: o.rule == "C10.R2", "a cutoff of 0 still builds its trimmer (presence tested with 'is None')")])
+_extend("C15", [("c03", "r5_actions", (), _has("PairedAdapterCutter"), "every action registers the pair's matches (they select the output file)"),
+                ("c04", "r1_accounting", (), _has("PairedSingleEndStep"), "a wrapped single-end step passes the pair on unless the step consumed it")])
+_extend("C17", [("c03", "r1_writers", (), ALL, "no modifier writes into the record that info.original_read refers to"),
+                ("c05", "wrapper_routing", ("C17.X",), ALL, "R2's matches are recorded on R2's info"),
+                ("c01", "r7_tuple", (), ALL, "the coordinates stored in a match are those of the alignment (incl. the rightmost mirror)")])
+_extend("C18", [("c06", "r5_pickle", (), _has("Aligner", "Comparer"), "search parameters given in a specification survive pickling of the adapter (spawned workers)"),
+                ("c09", "r1_best", (), _has("_regroup_into_indexed_adapters", "adapter list"), "every adapter given on the command line is searched"),
+                ("c07", "r1_coverage", (), ALL, "a documented placement (e.g. ;rightmost;anywhere) is not cut off by the prefilter")])
 
 
 def apply(repo, report):
